@@ -76,7 +76,9 @@ u.extract(CV, 'impl ToTyId for Intern<Ty>::fn to_type_id', key='type_id_match',
         !is_simple(*self.0) ==> dec_discr(res) == kind_discr(*self.0) && dec_index(res) < 0x400_0000,
 ''',
           loop_count=2,
-          loops={0: ('it', 'invariant gens_ok(*meta_tys)'), 1: ('it', 'invariant gens_ok(*meta_tys)')},
+          desugar_for={0: ('mi', 'ref'), 1: ('vi', 'ref')},
+          loops={0: 'invariant gens_ok(*meta_tys), 0 <= mi <= it_mi@.len() decreases it_mi@.len() - mi',
+                 1: 'invariant gens_ok(*meta_tys), 0 <= vi <= it_vi@.len() decreases it_vi@.len() - vi'},
           inserts=[('let list_id = meta_tys.%s_uid_gen.generate_unique_id();' % g, 'after',
                     ' proof { lemma_compound(%s_DISCRIMINANT, list_id); } ' % d)
                    for g, d in [('array', 'ARRAY'), ('slice', 'SLICE'), ('pointer', 'POINTER'), ('distinct', 'DISTINCT'),
